@@ -3,6 +3,7 @@ package sessiontracker
 import (
 	"fmt"
 	"strconv"
+	"sync"
 	"time"
 
 	"github.com/elastic/go-libaudit/v2/aucoalesce"
@@ -34,6 +35,12 @@ func NewSessionTracker(eventWriter *auditevent.EventWriter, l *zap.SugaredLogger
 // allowing us to correlate auditd events back to the credential
 // a user used to authenticate.
 type sessionTracker struct {
+	// mu serializes the delivery of remote user logins, audit events
+	// and cache cleanups. Each of them reads and updates both maps
+	// below, so each must happen as a single step with regard to the
+	// others (they are delivered from different Go routines).
+	mu sync.Mutex
+
 	// sessIDsToUsers contains active auditd sessions which may
 	// or may not have a common.RemoteUserLogin associated with
 	// them. It also acts as an auditd event cache.
@@ -76,6 +83,9 @@ func (o *sessionTracker) RemoteLogin(rul common.RemoteUserLogin) error {
 			inner:           err,
 		}
 	}
+
+	o.mu.Lock()
+	defer o.mu.Unlock()
 
 	// Check if there is an auditd session for this login.
 	var found bool
@@ -139,6 +149,9 @@ func (o *sessionTracker) AuditdEvent(event *aucoalesce.Event) error {
 	if event.Session == "" || event.Session == "unset" {
 		return nil
 	}
+
+	o.mu.Lock()
+	defer o.mu.Unlock()
 
 	debugLogger := o.l.With(
 		"auditEvent", *event,
@@ -282,6 +295,9 @@ func (o *sessionTracker) auditEventWithoutSession(event *aucoalesce.Event, debug
 // DeleteUsersWithoutLoginsBefore it takes a time parameter. It iterates over active audit sessions.
 // If the session is added before the timestamp and the user does not have a remote login, then it deletes that session.
 func (o *sessionTracker) DeleteUsersWithoutLoginsBefore(t time.Time) {
+	o.mu.Lock()
+	defer o.mu.Unlock()
+
 	var debugLogger *zap.SugaredLogger
 	if o.l.Level().Enabled(zap.DebugLevel) {
 		debugLogger = o.l.With(
@@ -311,6 +327,9 @@ func (o *sessionTracker) DeleteUsersWithoutLoginsBefore(t time.Time) {
 // It iterates over remote user logins and checks if a login was before the timestamp,
 // then it deletes that remote user login.
 func (o *sessionTracker) DeleteRemoteUserLoginsBefore(t time.Time) {
+	o.mu.Lock()
+	defer o.mu.Unlock()
+
 	var debugLogger *zap.SugaredLogger
 	if o.l.Level().Enabled(zap.DebugLevel) {
 		debugLogger = o.l.With(
